@@ -31,7 +31,9 @@ RULE = ('glob strings: valid globs of every shape L*H?S* with boundary octets, e
         'one at either end, octet-boundary values, random) + IPv6 pairs (rejected). cidr2glob: every IPv4 prefix x structured values '
         '(host bits kept) + IPv6 (rejected). nmap: four comma/hyphen octet lists with open ends, overlaps, duplicates, reversed and '
         'overflowing ranges, sloppy numerals, wrong octet counts, a.b.c.d/p with every p in 0..33 and sloppy prefixes, IPv6 '
-        'addresses, edit-distance-1 neighbours; enumerations truncated at %d. non-trivial = distinct case whose implementation '
+        'addresses, edit-distance-1 neighbours; enumerations truncated at %d; iter_nmap_range(*specs) with 0-4 arguments of every form '
+        '(octet lists, CIDRs, IPv6, malformed) under per-spec and whole-call (islice) budgets placed at, just before and just after every '
+        'spec boundary. non-trivial = distinct case whose implementation '
         'output is not an error') % (ALPHA, FUEL)
 
 
